@@ -668,6 +668,10 @@ def _defs_of(fi, name):
     return out
 
 
+def is_within_lp(a, lp):
+    return any(a is x for x in ast.walk(lp))
+
+
 def r7_local_clean(ctx):
     """Local.clean removes a directory only when it holds nothing at all: whatever an interrupted command left in a
     shard directory (a temporary, a stray file) keeps the directory, so the follow-up `clean` cannot fail on a
@@ -723,6 +727,32 @@ def r7_local_clean(ctx):
 
                 ys = [enclosing_stmt(y) for y in walk_local(lp) if isinstance(y, ast.Yield) and y.value is not None and len(_parts(y.value)) == 2 and any(isinstance(e_, ast.Name) and e_.id == ev for e_ in _parts(y.value))]
                 n += 1
+                if not ys:
+                    # protocol B: the generator yields only the directories that may be removed and RETURNS whether the
+                    # scanned directory itself holds nothing (`if entry.is_dir() and (yield from self.<g>(entry.path)): yield entry`)
+                    rets = [r for r in walk_local(g.node) if isinstance(r, ast.Return) and isinstance(r.value, ast.Name)]
+                    gate = [i for i in walk_local(lp) if isinstance(i, ast.If) and any(isinstance(x, ast.YieldFrom) for x in ast.walk(i.test)) and any(isinstance(c, ast.Call) and isinstance(c.func, ast.Attribute) and c.func.attr == 'is_dir' for c in ast.walk(i.test))]
+                    if rets and len(gate) == 1 and isinstance(gate[0].test, ast.BoolOp) and isinstance(gate[0].test.op, ast.And):
+                        flag = rets[0].value.id
+                        i = gate[0]
+                        falses = [x for a in walk_local(lp) if isinstance(a, ast.Assign) and any(isinstance(t, ast.Name) and t.id == flag for t in a.targets) and isinstance(a.value, ast.Constant) and a.value.value is False for x in cfg.nodes_of(a, 'stmt')]
+                        heads = cfg.nodes_of(lp, 'loop')
+                        leak = None
+                        for e in cfg.nodes_of(i, 'false'):
+                            leak = leak or cfg.path(e, heads, avoid=falses, kinds=('normal',))
+                        yielded_under_gate = all(any(y is x for b in i.body for x in ast.walk(b)) for y in walk_local(lp) if isinstance(y, ast.Yield))
+                        init_true = any(isinstance(a, ast.Assign) and any(isinstance(t, ast.Name) and t.id == flag for t in a.targets) and isinstance(a.value, ast.Constant) and a.value.value is True and not is_within_lp(a, lp) for a in walk_local(g.node))
+                        trues_in_loop = [a for a in walk_local(lp) if isinstance(a, ast.Assign) and any(isinstance(t, ast.Name) and t.id == flag for t in a.targets) and not (isinstance(a.value, ast.Constant) and a.value.value is False)]
+                        ctx.check(
+                            leak is None and yielded_under_gate and init_true and not trues_in_loop and all(isinstance(r.value, ast.Name) and r.value.id == flag for r in rets),
+                            'C03.R7',
+                            f'{func_label(g)}|every-entry-reported',
+                            loc(g, lp),
+                            f'{g.qual}: a directory is yielded for removal only when its own scan returned "holds nothing"; every other entry clears the emptiness of its parent',
+                            f'{g.qual}: an entry that is not an empty directory does not clear the emptiness of its parent on every path (or a directory is yielded outside the emptiness gate): '
+                            'a directory that still holds something is taken for empty, rmdir fails with ENOTEMPTY on every retry and the follow-up `clean` fails',
+                        )
+                        continue
                 ynodes = [x for y in ys for x in cfg.nodes_of(y, 'stmt')]
                 heads = cfg.nodes_of(lp, 'loop')
                 skip = None
